@@ -101,7 +101,8 @@ def render(items):
     return "".join(out)
 
 
-COMMENTS = ["", " c", " Enddecay", " ; End", "# x ;;", " Decay A", " PHSP", " End", "\tyesPhotos", " 0.5 a b PHSP;", " CDecay B0"]
+COMMENTS = ["", " c", " Enddecay", " ; End", "# x ;;", " Decay A", " PHSP", " End", "\tyesPhotos", " 0.5 a b PHSP;", " CDecay B0",
+            " <-- End of the modes", " old:\u2028Define dm 9.9", " page\x0cyesPhotos", " x\x85Alias QQ pi+", " sep\x1cCDecay B0", " ps\u2029End", " vt\x0bnoPhotos"]
 
 
 def rewrite(items, rng, ops, p=0.3, crlf=None, stats=None):
